@@ -1173,6 +1173,16 @@ impl<'de, R: Read<'de>> Parser<R> {
                     return self.parse_exponent(pos, significand, exponent);
                 }
                 _ => {
+                    if radix != 10 {
+                        // The digits dropped from the significand are digits
+                        // of the literal's radix, not decimal ones. The radix
+                        // is a power of two here, so the scaling is exact.
+                        let f = (significand as f64) * f64::from(radix).powi(exponent);
+                        if f.is_infinite() {
+                            return Err(self.error(ErrorCode::NumberOutOfRange));
+                        }
+                        return Ok(if pos { f } else { -f });
+                    }
                     return self.f64_from_parts(pos, significand, exponent);
                 }
             };
